@@ -316,6 +316,7 @@ package cmd
 // write (branch file, the two logs, HEAD) touches none of these files
 //@ pred objectsWritten(f, root, tree, ch) := object.treeStored(f, root, tree) && object.commitTreeOf(f, root, ch) == string(tree)
 //@ pred parentsAre(f, root, ch, f0, ref) := object.commitParentsOf(f, root, ch) == ite(isFile(f0, store.refPath(root, ref)), seqAppend(emptyStrings(), unhex(content(f0, store.refPath(root, ref)))), emptyStrings())
+//@ pred fieldsAre(f, root, ch, who, msg) := object.hdrLine("author", "", object.commitText(f, root, ch)) == object.signText(who) && object.hdrLine("committer", "", object.commitText(f, root, ch)) == object.signText(who) && object.hdrRest(object.commitText(f, root, ch)) == msg + "\n"
 //@ pred branchWritten(f, root, ref, tree, ch) := objectsWritten(f, root, tree, ch) && content(f, store.refPath(root, ref)) == hex(ch)
 //@ func commit
 //@   returns err
@@ -328,6 +329,8 @@ package cmd
 //@   requires [branch-text] isFile(fs, store.refPath(rootGoitPath, head.Reference)) ==> !contains(content(fs, store.refPath(rootGoitPath, head.Reference)), "\n")
 //@   ensures [same-branch] {C02} err == nil ==> head.Reference == old(head.Reference)
 //@   ensures [tip-tree-stored] {C02,C03} err == nil && validName(old(head.Reference)) ==> object.treeStored(fs, rootGoitPath, head.Commit.Tree)
+//@   ensures [message-recorded] {C02} err == nil && validName(old(head.Reference)) ==> object.hdrRest(object.commitText(fs, rootGoitPath, head.Commit.Hash)) == message + "\n"
+//@   ensures [identity-recorded] {C02} err == nil && validName(old(head.Reference)) ==> object.hdrLine("author", "", object.commitText(fs, rootGoitPath, head.Commit.Hash)) == object.hdrLine("committer", "", object.commitText(fs, rootGoitPath, head.Commit.Hash)) && hasPrefix(object.hdrLine("author", "", object.commitText(fs, rootGoitPath, head.Commit.Hash)), store.userNameOf(conf) + " <" + store.userEmailOf(conf) + "> ")
 //@   ensures [parent-is-old-tip] {C02} err == nil && validName(old(head.Reference)) ==> parentsAre(fs, rootGoitPath, head.Commit.Hash, old(fs), old(head.Reference)) && head.Commit.Parents == object.commitParentsOf(fs, rootGoitPath, head.Commit.Hash)
 //@   after ReadFile: assert [parent-one-line] {C02} err == nil && validName(head.Reference) ==> !contains(string(branchBytes), "\n")
 //@   after NewSign: assert [identity-one-line] {C02} !contains(author.Name, "\n") && !contains(author.Email, "\n")
@@ -345,6 +348,14 @@ package cmd
 //@   after WriteHEAD: assert [head-logged-p] {C02} err == nil && validName(head.Reference) ==> parentsAre(fs, rootGoitPath, commit.Hash, old(fs), head.Reference)
 //@   after WriteBranch: assert [branch-logged-p] {C02} err == nil && validName(head.Reference) ==> parentsAre(fs, rootGoitPath, commit.Hash, old(fs), head.Reference)
 //@   after Update: assert [head-updated-p] {C02} err == nil && validName(head.Reference) ==> parentsAre(fs, rootGoitPath, commit.Hash, old(fs), head.Reference)
+//@   after Update: assert [tip-is-new-commit] {C02} err == nil && validName(head.Reference) ==> string(head.Commit.Hash) == string(commit.Hash) && author != nil && author.Name == store.userNameOf(conf) && author.Email == store.userEmailOf(conf)
+//@   after NewCommit: assert [fields-in-text] {C02} validName(head.Reference) ==> object.hdrLine("author", "", string(commitObject.Data)) == object.signText(author) && object.hdrLine("committer", "", string(commitObject.Data)) == object.signText(author) && object.hdrRest(string(commitObject.Data)) == message + "\n"
+//@   after Write: assert [commit-has-fields] {C02} err == nil && validName(head.Reference) ==> fieldsAre(fs, rootGoitPath, commit.Hash, author, message)
+//@   after UpdateBranchHash: assert [branch-written-f] {C02} err == nil && validName(head.Reference) ==> fieldsAre(fs, rootGoitPath, commit.Hash, author, message)
+//@   after AddBranch: assert [branch-created-f] {C02} err == nil && validName(head.Reference) ==> fieldsAre(fs, rootGoitPath, commit.Hash, author, message)
+//@   after WriteHEAD: assert [head-logged-f] {C02} err == nil && validName(head.Reference) ==> fieldsAre(fs, rootGoitPath, commit.Hash, author, message)
+//@   after WriteBranch: assert [branch-logged-f] {C02} err == nil && validName(head.Reference) ==> fieldsAre(fs, rootGoitPath, commit.Hash, author, message)
+//@   after Update: assert [head-updated-f] {C02} err == nil && validName(head.Reference) ==> fieldsAre(fs, rootGoitPath, commit.Hash, author, message)
 //@   after NewCommit: assert [tree-read-back] {C02,C05} err == nil && validName(head.Reference) ==> string(commit.Tree) == string(treeObject.Hash)
 //@   ensures [tip-stored] {C02,C03} err == nil ==> head.Commit != nil && object.commitStored(fs, rootGoitPath, head.Commit.Hash)
 //@   ensures [branch-moved] {C02} err == nil ==> exists k int :: 0 <= k && k < len(refs.Heads) && refs.Heads[k].Name == head.Reference
